@@ -1362,7 +1362,14 @@ class FnLower:
         if ctor.get('isImplicit') or ctor.get('explicitlyDefaulted'):
             k = self.ctx._is_copy_or_move(ctor, r)
             if k:
-                self._check_copy_ctor_memberwise(r)
+                try:
+                    self._check_copy_ctor_memberwise(r)
+                except Unsupported:
+                    # a member has a user-provided copy constructor: the defaulted constructor is not a plain struct copy;
+                    # lower it from its (compiler-generated) member initialisers instead
+                    if self.ast.body_of(ctor) is None:
+                        raise
+                    return False
                 return True
         return False
 
